@@ -2500,6 +2500,8 @@ class TLSConnection(TLSRecordLayer):
                     break
             if result == "finished":
                 self._handshakeDone(resumed=False)
+            elif result == "resumed_and_finished":
+                self._handshakeDone(resumed=True)
             return
 
         #If not a resumption...
@@ -3016,6 +3018,7 @@ class TLSConnection(TLSRecordLayer):
 
         psk = None
         selected_psk = None
+        resuming = False
         resumed_client_cert_chain = None
         psks = clientHello.getExtension(ExtensionType.pre_shared_key)
         psk_types = clientHello.getExtension(
@@ -3048,6 +3051,7 @@ class TLSConnection(TLSRecordLayer):
                 psk = match[0][1]
                 selected_psk = i
                 if ticket:
+                    resuming = True
                     resumed_client_cert_chain = ticket.client_cert_chain
                 try:
                     HandshakeHelpers.verify_binder(
@@ -3525,7 +3529,7 @@ class TLSConnection(TLSRecordLayer):
         for result in self._serverSendTickets(settings):
             yield result
 
-        yield "finished"
+        yield "finished" if not resuming else "resumed_and_finished"
 
     def _ticket_to_session(self, settings, ticket_ext):
         if not ticket_ext.ticket:
